@@ -1,7 +1,7 @@
 """C18 Paged results yield every row exactly once, in order (W-FULL)."""
 from dsim import seams
 from props.common import gen_strategy, quiet_logging, Violations
-from worlds.reqpath import ReqPathRun, base_plan, RETRY, RETRY_NEXT_HOST
+from worlds.reqpath import ReqPathRun, base_plan, RETRY, RETRY_NEXT_HOST, RETHROW
 
 ID = 'C18'
 TIERS = {'quick': {'runs': 4000, 'budget_s': 55, 'wall_cap': 120, 'block': 60},
@@ -25,7 +25,7 @@ WORLD_INFO = {'real': ['ResultSet (all access paths)', 'ResponseFuture.start_fet
               'stub': ['libev C binding', 'sockets/TCP', 'ThreadPoolExecutor', 'fake nodes (independent decode of paging state / page size)']}
 ASSUMPTIONS = ['break+fetch_next_page+iterate is expected to yield the manually fetched page and everything after it '
                '(the behaviour of ResultSet.__iter__, which restarts at the current page)']
-REQUIRED_PROBES = ['empty_page', 'consecutive_empty_pages', 'page_retried', 'pattern_manual', 'pattern_listmode',
+REQUIRED_PROBES = ['page_fetch_failed_then_retried_by_caller', 'empty_page', 'consecutive_empty_pages', 'page_retried', 'pattern_manual', 'pattern_listmode',
                    'pattern_break_fetch_iter', 'speculative_paging']
 
 PATTERNS = ['for', 'list', 'all', 'manual', 'one_then_iter', 'listmode_eq', 'listmode_index', 'break_fetch_iter']
@@ -74,6 +74,19 @@ def gen_plan(rng, tier):
         p['requests'].append({'thread': 0, 'plan': order, 'idempotent': True, 'scripts': sc, 'fetch_size': rng.choice([1, 2, 5000]),
                               'decisions': [[RETRY, None] for _ in range(len(pages) + 2)],
                               'pattern': pats[i], 'take': rng.choice([0, 1, 1, 2])})
+    if rng.random() < 0.25:
+        # a page fetch that fails towards the caller (policy says RETHROW), who then fetches again: the first page must succeed
+        # (execute() itself would raise), any later page may fail once or twice
+        order = list(range(n))
+        rng.shuffle(order)
+        sc = [{'kind': 'ok', 'pages': pages, 'delay': 0.002}]
+        for k in range(1, len(pages)):
+            for _ in range(rng.choice([0, 1, 1, 2])):
+                sc.append({'kind': 'error', 'error': rng.choice(['read_timeout', 'overloaded', 'unavailable']), 'delay': 0.003})
+            sc.append({'kind': 'ok', 'pages': pages, 'delay': 0.002})
+        p['requests'].append({'thread': 0, 'plan': order, 'idempotent': True, 'scripts': sc, 'fetch_size': rng.choice([1, 2, 5000]),
+                              'decisions': [[RETHROW, None] for _ in range(2 * len(pages) + 2)], 'pattern': 'manual_retry', 'take': 0})
+        p['exec']['spec'] = None
     p.update(strategy=gen_strategy(rng), line_p=0, points=0, time_jump_p=0)
     return p
 
@@ -94,6 +107,19 @@ def consume(w, session, stmt, pattern, take, expected_all, pages):
             rs.fetch_next_page()
             rows += [r.seqno for r in rs.current_rows]
             guard += 1
+        return rows, expected_all
+    if pattern == 'manual_retry':
+        # the application catches a failed page fetch and asks for the same page again
+        rows = [r.seqno for r in rs.current_rows]
+        guard = 0
+        while rs.has_more_pages and guard < 80:
+            guard += 1
+            try:
+                rs.fetch_next_page()
+            except Exception:
+                w.sim.probe('page_fetch_failed_then_retried_by_caller')
+                continue
+            rows += [r.seqno for r in rs.current_rows]
         return rows, expected_all
     if pattern == 'one_then_iter':
         first = rs.one()
